@@ -61,6 +61,9 @@ func init() {
 	opaqueMethods["$direntry.Name"] = func(e *Exec, fr *Frame, recv IfaceV, a []Value) Value {
 		return recv.V.(Ptr).Obj.Aux.(*dirEnt).name
 	}
+	opaqueMethods["$direntry.IsDir"] = func(e *Exec, fr *Frame, recv IfaceV, a []Value) Value {
+		return e.tf.Bool(recv.V.(Ptr).Obj.Aux.(*dirEnt).kind == 1) // kind 1: a sub-directory
+	}
 	stubs["path/filepath.Join"] = func(e *Exec, fr *Frame, fn *ssa.Function, a []Value) Value {
 		parts := e.sliceElems(a[0].(SliceV))
 		out := chStr(e.tf, "")
